@@ -612,7 +612,7 @@ impl CraneliftCompiler {
                         _ => unreachable!(),
                     };
 
-                    if should_swap {
+                    if should_swap || ty != I64 {
                         let src = self.insn_dst(bcx, &insn);
                         let src_narrow = if ty != I64 {
                             bcx.ins().ireduce(ty, src)
@@ -620,7 +620,12 @@ impl CraneliftCompiler {
                             src
                         };
 
-                        let res = bcx.ins().bswap(src_narrow);
+                        // Without a swap the instruction still truncates to the given width
+                        let res = if should_swap {
+                            bcx.ins().bswap(src_narrow)
+                        } else {
+                            src_narrow
+                        };
                         let res_wide = if ty != I64 {
                             bcx.ins().uextend(I64, res)
                         } else {
